@@ -441,3 +441,26 @@ pub fn f64_to_bits(w32: bool, x: f64) -> u64 {
         x.to_bits()
     }
 }
+
+/// Minimised past failures (`/verif/corpus/<pid>.ops`, one `call` line each): they run first.
+pub fn corpus_cases(pid: &str) -> Vec<Case> {
+    let dir = std::env::var("VERIF_CORPUS_DIR").unwrap_or_else(|_| concat!(env!("CARGO_MANIFEST_DIR"), "/../corpus").to_string());
+    let text = match std::fs::read_to_string(format!("{}/{}.ops", dir, pid)) {
+        Ok(t) => t,
+        Err(_) => return vec![],
+    };
+    let mut out = vec![];
+    for line in text.lines() {
+        let f: Vec<&str> = line.split(' ').collect();
+        if f.len() < 6 || f[0] != "call" {
+            continue;
+        }
+        let alg = match f[1] { "primitive" => Alg::Primitive, "nnchain" => Alg::Nnchain, "generic" => Alg::Generic, "mst" => Alg::Mst, _ => Alg::Linkage };
+        let method = match METHODS.iter().cloned().find(|m| method_name(*m) == f[2]) { Some(m) => m, None => continue };
+        let w32 = f[3] == "32";
+        let n: usize = match f[5].parse() { Ok(n) => n, Err(_) => continue };
+        let bits: Vec<u64> = f[6..].iter().filter_map(|x| x.parse().ok()).collect();
+        out.push(Case { alg, method, w32, n, bits, class: "corpus" });
+    }
+    out
+}
